@@ -1,6 +1,7 @@
 CONSTANTS
  Alphabet = {"PCT", "L", "D", "US", "DOT", "LP", "RP", "QT", "SP", "O"}
  MaxLen = 5
+ Wrap = "none"
  MinPct = 0
 INIT Init
 NEXT Next
